@@ -28,7 +28,7 @@ def main():
             continue
         open(p, 'w').write(s.replace(m['old'], m['new']))
         env = dict(os.environ, VERIF_REPO=scratch, VERIF_SCRATCH=scratch + '/w')
-        r = subprocess.run([sys.executable, os.path.join(HERE, 'check.py'), 'all', '--no-evidence', '--standins'], env=env, stdout=subprocess.PIPE, stderr=subprocess.STDOUT, text=True)
+        r = subprocess.run([sys.executable, os.path.join(HERE, 'check.py'), 'all', '--no-evidence'] + (['--standins'] if os.environ.get('SELFTEST_STANDINS') else []), env=env, stdout=subprocess.PIPE, stderr=subprocess.STDOUT, text=True)
         viol = sorted(set(re.findall(r'VIOLATION property=(\S+)', r.stdout)))
         obl = sorted(set(re.findall(r'obligation=(\S+)', r.stdout)))
         inc = 'INCONCLUSIVE' in r.stdout
